@@ -39,6 +39,7 @@ def c15_rf19(run):
     run.min_instances('RF19', 150)
     rf_callmode.rf19c(run)
     rf_callmode.rf19d(run)
+    rf_tables.rf19e(run)
 
 
 def c15_rf16h(run):
@@ -215,6 +216,7 @@ def c04_rf18(run):
     rf_fold.rf41(run)
     rf_inline.rf45(run)
     rf_inline.rf46(run)
+    rf_inline.rf50(run)
     rf_fold.rf48(run)
 
 
